@@ -3,7 +3,10 @@ C06 — driver: replays an implementation trace through the model (correspondenc
 cache commands with their outcome, complete cache dump with TTLs after every operation) and through the
 monitor of Spec.lean (the property's clauses on the implementation's own observations).
 
-Section cfg:  exp=<ms> nf=<ms> nodes=<1..4> type=<node|cluster> place=<key>:<node>,…|-   (unlisted keys: node 0)
+Section cfg:  exp=<ms|-> nf=<ms|-> nodes=<1..4> type=<node|cluster> place=<key>:<node>,…|-   (unlisted keys: node 0)
+              exp / nf are the cache.Options the cache is BUILT with: `-` = the option is not given, otherwise
+              WithExpiry(<ms>) / WithNotFoundExpiry(<ms>) with any integer (0, negative, sub-second, very large);
+              the model runs `newOptions` on them (Model.newOptions)
 Ops (see harness/overlay/core/stores/sqlc/zz_verif_c06_test.go):
   take p<pk> [j=] [c=<mask>] [db=1] | qindex x<a> … | get <key> [c=]          mask: i-th cache command of the op
   exec <keys|-> put:<pk>:<v>:<a>|rm:<pk> [c=<m0>/<m1>/…] [db=1] | del <keys|-> [c=<m0>/<m1>/…]
@@ -67,6 +70,25 @@ def placeOf (l : List (CKey × Nat)) (k : CKey) : Nat :=
   match l.find? (·.1 = k) with
   | some e => e.2
   | none => 0
+
+/-- `exp=` / `nf=` of the section cfg: `-` (or absent) = option not given, else the integer handed to
+`WithExpiry` / `WithNotFoundExpiry` (ms).  Anything else is a bad cfg (outer `none`). -/
+def parseOptMs (toks : List String) (k : String) : Option (Option Int) :=
+  match kv? toks k with
+  | none => some none
+  | some "-" => some none
+  | some v => v.toInt?.map some
+
+/-- the input class of an option value (cover counters). -/
+def optClass (name : String) : Option Int → String
+  | none => s!"opt-{name}-unset"
+  | some v =>
+    if v = 0 then s!"opt-{name}-zero"
+    else if v < 0 then s!"opt-{name}-negative"
+    else if v < 1000 then s!"opt-{name}-subsecond"
+    else if v ≥ 30 * 24 * 3600 * 1000 then s!"opt-{name}-very-large"
+    else if v % 1000 ≠ 0 then s!"opt-{name}-fractional-seconds"
+    else s!"opt-{name}-whole-seconds"
 
 def optJ (toks : List String) : Option Nat :=
   match kv? toks "j" with
@@ -177,7 +199,7 @@ def slotUniverse : List Slot := (List.range maxNodes).flatMap fun n => keyUniver
 
 def showDump (s : St) : List String :=
   slotUniverse.filterMap fun k => match s.cache k with
-    | some e => some s!"{k.1}/{showKey k.2}={showVal e.val}@{e.ttl}"
+    | some e => some (s!"{k.1}/{showKey k.2}={showVal e.val}@" ++ (if e.ttl = 0 then "inf" else toString e.ttl))
     | none => none
 
 def showOut (kind : String) (s : St) (o : Out) : List String :=
@@ -282,11 +304,26 @@ def coverOf (c : Cfg) (s s' : St) (op : Op) (o : Out) : List String :=
     | .ft _ => if slotUniverse.any (fun k => (s.cache k).isSome && (s'.cache k).isNone) then ["ft-expired"] else []
     | .take .. | .qindex .. => (if o.cmds.any (·.cmd = .del) then ["junk-reload"] else [])
         ++ (if o.cmds.any (·.cmd = .setnx) then ["placeholder-write"] else [])
+        ++ (if o.cmds.any (fun r => r.cmd = .setnx && !r.fail) && o.cmds.any (fun r => r.cmd = .del && r.fail)
+            then ["placeholder-setnx-on-occupied-slot"] else [])
+        ++ (if o.cmds.any (fun r => r.cmd = .setnx && !r.fail) then
+              [s!"placeholder-ttl-{if ttlSec c.nf 0 = ttlSec c.nf 1000 then "jitter-invisible" else "jitter-visible"}"] else [])
     | _ => []
   let st := if slotUniverse.any (fun k => match s'.cache k with | some e => e.origin = .stale | none => false) then ["state-has-stale-entry"] else []
   let occ := (List.range maxNodes).filter fun n => keyUniverse.any fun k => (s'.cache (n, k)).isSome
   let mn := if occ.length ≥ 2 then ["state-entries-on-several-nodes"] else []
   f ++ r ++ t ++ g ++ d ++ st ++ delCover ++ readCover ++ mn
+
+/-- the same state with its three maps rebuilt as finite tables over the driver's universe (every key and node
+the parser admits lies inside it): the model's maps are closures that grow with every update (`upd`, `delKeys`,
+`expire` wrap the previous map), so without this a lookup after `tick 3600` walks 3600 closures. -/
+def compact (s : St) : St :=
+  let tbl := slotUniverse.filterMap fun k => (s.cache k).map fun e => (k, e)
+  let rows := (List.range (maxKeyIdx + 1)).filterMap fun pk => (s.rows pk).map fun v => (pk, v)
+  let idx := (List.range (maxKeyIdx + 1)).filterMap fun a => (s.idx a).map fun v => (a, v)
+  { s with cache := fun k => (tbl.find? (·.1 = k)).map (·.2),
+           rows := fun pk => (rows.find? (·.1 = pk)).map (·.2),
+           idx := fun a => (idx.find? (·.1 = a)).map (·.2) }
 
 /-- observation of a concurrent read, reduced to the shape of a sequential one for the monitor. -/
 def concObs (toks : List String) : List String :=
@@ -305,9 +342,15 @@ def runSection (r : Report) (sec : Section) : Report := Id.run do
       pure []
   if nodes = 0 || nodes > maxNodes || !(typ = "node" || typ = "cluster") then
     return r.mismatch sec.idx 0 "bad-cfg" (joinSp sec.cfg)
-  let c : Cfg := { Cfg.ofOptions (kvNat sec.cfg "exp" 0) (kvNat sec.cfg "nf" 0) with
-                   cluster := typ = "cluster", place := placeOf place }
+  let opts : Options ← match parseOptMs sec.cfg "exp", parseOptMs sec.cfg "nf" with
+    | some e, some n => pure { expiry := e, notFound := n }
+    | _, _ =>
+      r := r.mismatch sec.idx 0 "bad-cfg" (joinSp sec.cfg)
+      pure {}
+  let c : Cfg := { Cfg.ofOptions opts with cluster := typ = "cluster", place := placeOf place }
   r := r.addCover s!"section-nodes-{nodes}-{typ}"
+  r := r.addCover (optClass "exp" opts.expiry)
+  r := r.addCover (optClass "nf" opts.notFound)
   let mut s := St.init
   let mut mon := Spec.Mon.init
   for l in sec.lines do
@@ -333,6 +376,7 @@ def runSection (r : Report) (sec : Section) : Report := Id.run do
         if kvNat l.obs "distinct" 99 ≠ 1 then
           r := r.violation sec.idx l.idx s!"single-loader: concurrent readers received different results op=[{joinSp l.op}] impl=[{impl}]"
       for t in coverOf c s res.1 op res.2 do r := r.addCover t
+      if l.op.contains "w=1" && res.2.res = .notfound && res.2.q ≥ 1 then r := r.addCover "notfound-error-wrapped"
       if model ≠ impl then r := r.mismatch sec.idx l.idx model impl
       match parseObs (if conc then concObs l.obs else l.obs) with
       | none => r := r.violation sec.idx l.idx s!"unreadable observation [{impl}] op=[{joinSp l.op}]"
@@ -341,7 +385,7 @@ def runSection (r : Report) (sec : Section) : Report := Id.run do
         for v in m.2.1 do r := r.violation sec.idx l.idx s!"{v} op=[{joinSp l.op}] impl=[{impl}]"
         for t in m.2.2 do r := r.addCover t
         mon := m.1
-      s := res.1
+      s := compact res.1
   return r
 
 def driver (secs : List Section) : Report := secs.foldl runSection {}
